@@ -145,7 +145,7 @@ func c18lex(c *Ctx, src, from string) {
 	}
 	c.Dist["tokens"] += len(toks)
 	id := c.NewID()
-	term := fmt.Sprintf("CLex %d %s %s", id, c18hx(src), CoqList(items))
+	term := fmt.Sprintf("CLex %d%%N %s %s", id, c18hx(src), CoqList(items))
 	nontrivial := len(lines) > 1 && kinds != 0
 	if nontrivial {
 		c.Dist["multi_line_with_comment_or_string"]++
@@ -205,7 +205,7 @@ func c18tables(c *Ctx) {
 	}
 	id := c.NewID()
 	desc := c18case{Kind: "tables", From: "tables"}
-	term := fmt.Sprintf("CTables %d %s %s %s %s %s %s", id, c18table(parser.KeywordMap), c18table(parser.SymbolMap),
+	term := fmt.Sprintf("CTables %d%%N %s %s %s %s %s %s", id, c18table(parser.KeywordMap), c18table(parser.SymbolMap),
 		c18ranges(unicode.IsSpace), c18ranges(unicode.IsControl), c18ranges(unicode.IsNumber), "("+CoqList(lower)+")%Z")
 	c.AddCase(id, term, desc, "tables", false)
 }
